@@ -259,3 +259,435 @@ mod k {
         assert!(bvh.intersects(&ray).is_some() == direct, "C13.build.equiv");
     }
 }
+
+// =====================================================================================================
+// Model builders shared by the native obligations
+// =====================================================================================================
+#[cfg(verif_native)]
+pub mod mk {
+    use crate::*;
+
+    pub fn uid(n: u128) -> Uuid {
+        Uuid::from_u128(n)
+    }
+
+    pub fn rect(w: f32, h: f32) -> Polygon {
+        vec![point![0.0, 0.0], point![w, 0.0], point![w, h], point![0.0, h]]
+    }
+
+    pub fn space(id: u128, inside: bool, kind: SpaceType, mult: f32, height: f32) -> Space {
+        Space {
+            id: uid(id),
+            name: format!("S{:x}", id),
+            multiplier: mult,
+            kind,
+            inside_tenv: inside,
+            height,
+            z: 0.0,
+            loads: None,
+            thermostat: None,
+            n_v: None,
+            illuminance: None,
+        }
+    }
+
+    pub fn wall(id: u128, bounds: BoundaryType, space: Uuid, next_to: Option<Uuid>, cons: Uuid, tilt: f32, azimuth: f32, polygon: Polygon, position: Option<Point3>) -> Wall {
+        Wall { id: uid(id), name: format!("W{:x}", id), bounds, cons, space, next_to, geometry: WallGeom { tilt, azimuth, position, polygon } }
+    }
+
+    pub fn window(id: u128, wall: Uuid, cons: Uuid, w: f32, h: f32, position: Option<Point2>, setback: f32) -> Window {
+        Window { id: uid(id), name: format!("H{:x}", id), cons, wall, geometry: WinGeom { position, height: h, width: w, setback } }
+    }
+
+    pub fn material(id: u128, conductivity: f32) -> Material {
+        Material { id: uid(id), name: format!("M{:x}", id), properties: MatProps::Detailed { conductivity, density: 1000.0, specific_heat: 1000.0, vapour_diff: None } }
+    }
+
+    pub fn material_r(id: u128, resistance: f32) -> Material {
+        Material { id: uid(id), name: format!("M{:x}", id), properties: MatProps::Resistance { resistance, vapour_diff: None } }
+    }
+
+    pub fn wallcons(id: u128, layers: &[(u128, f32)]) -> WallCons {
+        WallCons { id: uid(id), name: format!("C{:x}", id), layers: layers.iter().map(|(m, e)| Layer { material: uid(*m), e: *e }).collect(), absorptance: 0.6 }
+    }
+
+    pub fn wincons(id: u128, glass: Uuid, frame: Uuid) -> WinCons {
+        WinCons { id: uid(id), name: format!("X{:x}", id), glass, frame, f_f: 0.25, delta_u: 10.0, g_glshwi: None, c_100: 27.0 }
+    }
+
+    pub fn glass(id: u128) -> Glass {
+        Glass { id: uid(id), name: format!("G{:x}", id), u_value: 1.4, g_gln: 0.6 }
+    }
+
+    pub fn frame(id: u128) -> Frame {
+        Frame { id: uid(id), name: format!("F{:x}", id), u_value: 2.2, absorptivity: 0.6 }
+    }
+
+    pub fn bridge(id: u128, kind: ThermalBridgeKind, l: f32, psi: f32) -> ThermalBridge {
+        ThermalBridge { id: uid(id), name: format!("B{:x}", id), kind, l, psi }
+    }
+
+    pub fn empty_model() -> Model {
+        let mut m = Model::default();
+        m.meta.name = "verif".to_string();
+        m
+    }
+}
+
+// =====================================================================================================
+// Native bounded obligations
+// =====================================================================================================
+#[cfg(verif_native)]
+mod n {
+    use super::mk::*;
+    use super::support::*;
+    use crate::types::HasSurface;
+    use crate::utils::fround2;
+    use crate::*;
+    use std::collections::BTreeMap;
+
+    // ---- C11: polygon area / perimeter --------------------------------------------------------------
+    fn shoelace(v: &[(i64, i64)]) -> f64 {
+        let n = v.len();
+        if n < 2 {
+            return 0.0;
+        }
+        let mut s: i64 = 0;
+        for i in 0..n {
+            let (x0, y0) = v[i];
+            let (x1, y1) = v[(i + 1) % n];
+            s += x0 * y1 - y0 * x1;
+        }
+        (s as f64).abs() / 2.0
+    }
+
+    fn perim(v: &[(i64, i64)]) -> f64 {
+        let n = v.len();
+        if n < 2 {
+            return 0.0;
+        }
+        (0..n).map(|i| {
+            let (x0, y0) = v[i];
+            let (x1, y1) = v[(i + 1) % n];
+            (((x1 - x0).pow(2) + (y1 - y0).pow(2)) as f64).sqrt()
+        }).sum()
+    }
+
+    #[test]
+    fn n_c11_poly() {
+        drive(
+            "C11.poly",
+            "Polygon::area / perimeter: every vertex list of length 0..4 (0..5 thorough) on the 4x4 integer grid; scale factors {0.25,0.5,2,4}; cyclic shifts and reversal",
+            |c| {
+                let maxn = if c.tier_thorough { 6 } else { 5 };
+                let n = c.pick(maxn);
+                let mut v: Vec<(i64, i64)> = vec![];
+                for _ in 0..n {
+                    let k = c.pick(16);
+                    v.push(((k % 4) as i64, (k / 4) as i64));
+                }
+                c.note(format!("{:?}", v));
+                let poly: Polygon = v.iter().map(|(x, y)| point![*x as f32, *y as f32]).collect();
+                let a = poly.area();
+                let p = poly.perimeter();
+                c.check("C11.poly.area", a as f64 == shoelace(&v), || format!("area {} want {}", a, shoelace(&v)));
+                c.check("C11.poly.perimeter", approx64(p, perim(&v), 1e-6, 1e-6), || format!("perimeter {} want {}", p, perim(&v)));
+                c.check("C11.poly.nonneg", a >= 0.0 && p >= 0.0, || format!("area {} perimeter {}", a, p));
+                if n >= 1 {
+                    let mut sh = poly.clone();
+                    sh.rotate_left(1);
+                    c.check("C11.poly.shift_invariant", sh.area() == a && approx(sh.perimeter(), p, 1e-6, 1e-6), || format!("shifted area {} vs {}", sh.area(), a));
+                    let mut rv = poly.clone();
+                    rv.reverse();
+                    c.check("C11.poly.reversal_invariant", rv.area() == a && approx(rv.perimeter(), p, 1e-6, 1e-6), || format!("reversed area {} vs {}", rv.area(), a));
+                }
+                for s in [0.25f32, 0.5, 2.0, 4.0] {
+                    let sc: Polygon = poly.iter().map(|q| point![q.x * s, q.y * s]).collect();
+                    c.check("C11.poly.scale_area", sc.area() == a * s * s, || format!("scale {}: area {} want {}", s, sc.area(), a * s * s));
+                    c.check("C11.poly.scale_perimeter", approx(sc.perimeter(), p * s, 1e-6, 1e-6), || format!("scale {}: perimeter {} want {}", s, sc.perimeter(), p * s));
+                }
+                if a > 0.0 {
+                    c.nontrivial(format!("{:?}", v));
+                }
+                c.sample(|| format!("{:?} -> area {} perimeter {}", v, a, p));
+            },
+        );
+    }
+
+    // ---- C11 / C08 / C09: EnergyProps::from(&Model) ----------------------------------------------------
+    const KINDS3: [SpaceType; 3] = [SpaceType::CONDITIONED, SpaceType::UNCONDITIONED, SpaceType::UNINHABITED];
+    const BOUNDS: [BoundaryType; 4] = [BoundaryType::EXTERIOR, BoundaryType::GROUND, BoundaryType::INTERIOR, BoundaryType::ADIABATIC];
+
+    /// Two storeys: s0 (floor 4x5, roof with a 0.3 m construction), s1 (floor 3x5, no covering element).
+    /// One extra wall `w` with enumerated boundary / space / adjacent space, carrying one window.
+    fn two_space_model(c: &mut Ctx) -> (Model, String) {
+        let mut m = empty_model();
+        let in0 = c.flag();
+        let k0 = c.of(&KINDS3);
+        let m0 = c.of(&[1.0f32, 2.0]);
+        let in1 = c.flag();
+        let k1 = c.of(&KINDS3);
+        let m1 = c.of(&[1.0f32, 3.0]);
+        let b = c.of(&BOUNDS);
+        let sp = c.pick(3);
+        let nx = c.pick(4);
+        let vent = c.of(&[None, Some(30.0f32)]);
+        let newb = c.flag();
+        m.meta.global_ventilation_l_s = vent;
+        m.meta.is_new_building = newb;
+        m.spaces.push(space(0xA0, in0, k0, m0, 3.0));
+        m.spaces.push(space(0xA1, in1, k1, m1, 2.5));
+        m.cons.materials.push(material(0xE0, 0.5));
+        m.cons.wallcons.push(wallcons(0xC0, &[(0xE0, 0.3)]));
+        m.cons.glasses.push(glass(0xF0));
+        m.cons.frames.push(frame(0xF1));
+        m.cons.wincons.push(wincons(0xD0, uid(0xF0), uid(0xF1)));
+        // floors
+        m.walls.push(wall(1, BoundaryType::GROUND, uid(0xA0), None, uid(0xC0), 180.0, 0.0, rect(4.0, 5.0), None));
+        m.walls.push(wall(2, BoundaryType::GROUND, uid(0xA1), None, uid(0xC0), 180.0, 0.0, rect(3.0, 5.0), None));
+        // roof over s0
+        m.walls.push(wall(3, BoundaryType::EXTERIOR, uid(0xA0), None, uid(0xC0), 0.0, 0.0, rect(4.0, 5.0), None));
+        let sid = [uid(0xA0), uid(0xA1), uid(0x9999)][sp];
+        let nid = [None, Some(uid(0xA0)), Some(uid(0xA1)), Some(uid(0x9998))][nx];
+        m.walls.push(wall(4, b, sid, nid, uid(0xC0), 90.0, 0.0, rect(4.0, 3.0), None));
+        m.windows.push(window(0x11, uid(4), uid(0xD0), 1.0, 1.5, None, 0.0));
+        m.overrides.walls.insert(uid(4), WallPropsOverrides { u_value: Some(0.77) });
+        m.overrides.windows.insert(uid(0x11), WinPropsOverrides { u_value: Some(1.23), f_shobst: Some(0.45) });
+        let d = format!("s0(in={},{:?},x{}) s1(in={},{:?},x{}) w4({:?}, space#{}, next#{}) vent={:?} new={}", in0, k0, m0, in1, k1, m1, b, sp, nx, vent, newb);
+        (m, d)
+    }
+
+    #[test]
+    fn n_c11_props_model() {
+        drive(
+            "C11.props",
+            "EnergyProps::from(&Model): 2 spaces each over in/out x 3 kinds x multiplier; 3 fixed floor/roof elements; 1 wall over 4 boundary kinds x own space {s0,s1,dangling} x adjacent {none,s0,s1,dangling} with 1 window and overrides; ventilation {none,30 l/s}; new/existing",
+            |c| {
+                let (m, d) = two_space_model(c);
+                c.note(d.clone());
+                let p = energy::EnergyProps::from(&m);
+                let g = &p.global;
+                let s = |i: usize| &m.spaces[i];
+                let area = [20.0f64, 15.0];
+                let hnet = [3.0f64 - 0.3, 2.5];
+                let hgross = [3.0f64, 2.5];
+                // spaces
+                for i in 0..2 {
+                    let sp = &p.spaces[&s(i).id];
+                    c.check("C11.space.area", approx64(sp.area, area[i], 1e-6, 1e-6), || format!("space {} area {} want {}", i, sp.area, area[i]));
+                    c.check("C11.space.height_net", approx64(sp.height_net, hnet[i], 1e-6, 1e-6), || format!("space {} height_net {} want {}", i, sp.height_net, hnet[i]));
+                    c.check("C11.space.volume_net", approx64(sp.volume_net, area[i] * hnet[i], 1e-5, 1e-5), || format!("space {} volume_net {}", i, sp.volume_net));
+                }
+                // reference area and volumes (with multipliers)
+                let mut a_ref = 0.0;
+                let mut vg = 0.0;
+                let mut vn = 0.0;
+                let mut vinh = 0.0;
+                for i in 0..2 {
+                    let mu = s(i).multiplier as f64;
+                    if s(i).inside_tenv {
+                        vg += area[i] * hgross[i] * mu;
+                        vn += area[i] * hnet[i] * mu;
+                        if s(i).kind != SpaceType::UNINHABITED {
+                            a_ref += area[i] * mu;
+                            vinh += area[i] * hnet[i] * mu;
+                        }
+                    }
+                }
+                c.check("C11.a_ref", approx64(g.a_ref, a_ref, 1e-5, 0.006), || format!("a_ref {} want {}", g.a_ref, a_ref));
+                c.check("C11.vol_gross", approx64(g.vol_env_gross, vg, 1e-5, 0.006), || format!("vol_env_gross {} want {}", g.vol_env_gross, vg));
+                c.check("C11.vol_net", approx64(g.vol_env_net, vn, 1e-5, 0.006), || format!("vol_env_net {} want {}", g.vol_env_net, vn));
+                c.check("C11.indicators_echo", {
+                    let ind = m.energy_indicators();
+                    ind.area_ref == g.a_ref && ind.vol_env_net == g.vol_env_net && ind.vol_env_gross == g.vol_env_gross && ind.compactness == g.compactness
+                }, || "EnergyIndicators top-level figures differ from props.global".to_string());
+                // envelope membership of every wall
+                let inside = |id: Uuid| m.spaces.iter().find(|x| x.id == id).map_or(false, |x| x.inside_tenv);
+                let mut exposed = 0.0f64;
+                for w in &m.walls {
+                    let own = inside(w.space);
+                    let next = w.next_to.map_or(false, inside);
+                    let want = match w.bounds {
+                        BoundaryType::INTERIOR => own != next,
+                        _ => own,
+                    };
+                    let wp = &p.walls[&w.id];
+                    c.check("C11.tenv", wp.is_tenv == want, || format!("wall {} is_tenv {} want {}", w.name, wp.is_tenv, want));
+                    let mult = m.spaces.iter().find(|x| x.id == w.space).map_or(1.0, |x| x.multiplier);
+                    c.check("C08.multiplier", wp.multiplier == mult, || format!("wall {} multiplier {} want {}", w.name, wp.multiplier, mult));
+                    let win_a: f32 = m.windows.iter().filter(|x| x.wall == w.id).map(|x| x.geometry.width * x.geometry.height).sum();
+                    c.check("C08.area_net", approx(wp.area_net, w.geometry.polygon.area() - win_a, 1e-6, 0.0051), || format!("wall {} area_net {} gross {} windows {}", w.name, wp.area_net, wp.area_gross, win_a));
+                    c.check("C08.override", wp.u_value_override == m.overrides.walls.get(&w.id).and_then(|o| o.u_value), || format!("wall {} override {:?}", w.name, wp.u_value_override));
+                    c.check("C08.u_value_is_walls", wp.u_value == w.u_value(&m), || format!("wall {} u_value {:?} vs Wall::u_value {:?}", w.name, wp.u_value, w.u_value(&m)));
+                    if want && (w.bounds == BoundaryType::EXTERIOR || w.bounds == BoundaryType::GROUND) {
+                        exposed += w.geometry.polygon.area() as f64 * mult as f64;
+                    }
+                }
+                let comp = if exposed == 0.0 { 0.0 } else { vg / exposed };
+                c.check("C11.compactness", approx64(g.compactness, comp, 1e-4, 1e-4), || format!("compactness {} want {} (V {} / A {})", g.compactness, comp, vg, exposed));
+                // windows inherit envelope membership, boundary and multiplier from their wall
+                for w in &m.windows {
+                    let wp = &p.windows[&w.id];
+                    let host = &p.walls[&w.wall];
+                    c.check("C08.window.inherits", wp.is_tenv == host.is_tenv && wp.multiplier == host.multiplier && wp.bounds == host.bounds && wp.orientation == host.orientation, || format!("window {}: {:?}", w.name, wp));
+                    c.check("C08.window.override", wp.u_value_override == Some(1.23) && wp.f_shobst_override == Some(0.45), || format!("window overrides {:?} {:?}", wp.u_value_override, wp.f_shobst_override));
+                    let wc = m.cons.wincons.iter().find(|x| x.id == w.cons).unwrap();
+                    c.check("C08.window.u", wp.u_value == wc.u_value(&m.cons), || format!("window u {:?}", wp.u_value));
+                    c.check("C11.window.area", wp.area == 1.5, || format!("window area {}", wp.area));
+                }
+                // ventilation rate reported with the indicators is the one used inside the U-value calculation
+                let used = m.global_ventilation_rate();
+                c.check("C11.ventilation", g.global_ventilation_rate == used || (g.global_ventilation_rate.is_nan() && used.is_nan()), || format!("reported {} but U-value calculation uses {}", g.global_ventilation_rate, used));
+                if let Some(l_s) = m.meta.global_ventilation_l_s {
+                    if vinh > 0.0 {
+                        c.check("C11.ventilation.value", approx64(used, 3.6 * l_s as f64 / vinh, 1e-4, 1e-5), || format!("ventilation rate {} want {}", used, 3.6 * l_s as f64 / vinh));
+                    }
+                } else {
+                    c.check("C11.ventilation.value", used == 0.0 && g.global_ventilation_rate == 0.0, || format!("ventilation rate {} without a building value", used));
+                }
+                // C09: reference wall permeability by building age
+                c.check("C09.c_o", g.c_o_100 == if m.meta.is_new_building { 16.0 } else { 29.0 }, || format!("c_o_100 {}", g.c_o_100));
+                if a_ref > 0.0 {
+                    c.nontrivial(d.clone());
+                }
+                c.sample(|| format!("{} -> a_ref {} vol {} / {} compactness {}", d, g.a_ref, g.vol_env_gross, g.vol_env_net, g.compactness));
+            },
+        );
+    }
+
+    // ---- C11: scaling all lengths by s -----------------------------------------------------------------
+    fn scaled_model(s: f32, in1: bool, m0: f32, kind1: SpaceType) -> Model {
+        let mut m = empty_model();
+        m.spaces.push(space(0xA0, true, SpaceType::CONDITIONED, m0, 3.0 * s));
+        m.spaces.push(space(0xA1, in1, kind1, 1.0, 2.5 * s));
+        m.cons.materials.push(material(0xE0, 0.5));
+        m.cons.wallcons.push(wallcons(0xC0, &[(0xE0, 0.25 * s)]));
+        m.walls.push(wall(1, BoundaryType::GROUND, uid(0xA0), None, uid(0xC0), 180.0, 0.0, rect(4.0 * s, 5.0 * s), None));
+        m.walls.push(wall(2, BoundaryType::INTERIOR, uid(0xA1), Some(uid(0xA0)), uid(0xC0), 180.0, 0.0, rect(4.0 * s, 5.0 * s), None));
+        m.walls.push(wall(3, BoundaryType::EXTERIOR, uid(0xA1), None, uid(0xC0), 0.0, 0.0, rect(4.0 * s, 5.0 * s), None));
+        m.walls.push(wall(4, BoundaryType::EXTERIOR, uid(0xA0), None, uid(0xC0), 90.0, 0.0, rect(4.0 * s, 3.0 * s), None));
+        m.walls.push(wall(5, BoundaryType::EXTERIOR, uid(0xA1), None, uid(0xC0), 90.0, 90.0, rect(5.0 * s, 2.5 * s), None));
+        m
+    }
+
+    #[test]
+    fn n_c11_scaling() {
+        drive("C11.scaling", "two stacked spaces (ceiling given from the upper side) scaled by s in {0.25,0.5,2,4}; upper space in/out, 3 kinds; multiplier {1,2}", |c| {
+            let s = c.of(&[0.25f32, 0.5, 2.0, 4.0]);
+            let in1 = c.flag();
+            let m0 = c.of(&[1.0f32, 2.0]);
+            let k1 = c.of(&KINDS3);
+            c.note(format!("s={} in1={} m0={} k1={:?}", s, in1, m0, k1));
+            let g1 = energy::EnergyProps::from(&scaled_model(1.0, in1, m0, k1)).global;
+            let gs = energy::EnergyProps::from(&scaled_model(s, in1, m0, k1)).global;
+            let (s2, s3) = (s * s, s * s * s);
+            // every figure is rounded to 0.01 before and after scaling
+            let tol = |k: f32| 0.0051 * (1.0 + k);
+            c.check("C11.scale.a_ref", (gs.a_ref - g1.a_ref * s2).abs() <= tol(s2) + 1e-5 * gs.a_ref, || format!("a_ref {} vs {} * {}", gs.a_ref, g1.a_ref, s2));
+            c.check("C11.scale.vol_gross", (gs.vol_env_gross - g1.vol_env_gross * s3).abs() <= tol(s3) + 1e-5 * gs.vol_env_gross, || format!("vol_gross {} vs {} * {}", gs.vol_env_gross, g1.vol_env_gross, s3));
+            c.check("C11.scale.vol_net", (gs.vol_env_net - g1.vol_env_net * s3).abs() <= tol(s3) + 1e-4 * gs.vol_env_net, || format!("vol_net {} vs {} * {}", gs.vol_env_net, g1.vol_env_net, s3));
+            c.check("C11.scale.compactness", (gs.compactness - g1.compactness * s).abs() <= 2e-3 * (1.0 + s), || format!("compactness {} vs {} * {}", gs.compactness, g1.compactness, s));
+            c.check("C11.scale.sanity", g1.a_ref > 0.0 && g1.vol_env_net > 0.0 && g1.vol_env_net < g1.vol_env_gross && g1.compactness > 0.0, || format!("unit model: {:?}", g1));
+            c.nontrivial(format!("{} {} {} {:?}", s, in1, m0, k1));
+            c.sample(|| format!("s={} in1={} m0={} -> a_ref {} vol {} / {} comp {}", s, in1, m0, gs.a_ref, gs.vol_env_gross, gs.vol_env_net, gs.compactness));
+        });
+    }
+
+    // ---- C15: the model checker reports exactly the broken links -------------------------------------------
+    fn link(c: &mut Ctx, valid: Uuid) -> (Uuid, bool) {
+        match c.pick(3) {
+            0 => (valid, true),
+            1 => (Uuid::nil(), false),
+            _ => (uid(0xDEAD), false),
+        }
+    }
+
+    #[test]
+    fn n_c15_check() {
+        drive(
+            "C15.check",
+            "check(&Model): 2 spaces; wall 0 over space link {ok,nil,absent} x construction link x adjacent {none,ok,nil,absent}; wall 1 over space link; 2 windows (window 0 over wall link x construction link, window 1 over wall link); 2 bridges each over length {-1,-0.0,0,1}",
+            |c| {
+                let mut m = empty_model();
+                m.spaces.push(space(0xA0, true, SpaceType::CONDITIONED, 1.0, 3.0));
+                m.spaces.push(space(0xA1, true, SpaceType::CONDITIONED, 1.0, 3.0));
+                m.cons.materials.push(material(0xE0, 0.5));
+                m.cons.wallcons.push(wallcons(0xC0, &[(0xE0, 0.3)]));
+                m.cons.glasses.push(glass(0xF0));
+                m.cons.frames.push(frame(0xF1));
+                m.cons.wincons.push(wincons(0xD0, uid(0xF0), uid(0xF1)));
+                let mut want: Vec<Uuid> = vec![];
+                // wall 0
+                let (sp, ok_sp) = link(c, uid(0xA0));
+                let (cn, ok_cn) = link(c, uid(0xC0));
+                let nx = c.pick(4);
+                let (nid, ok_nx) = match nx {
+                    0 => (None, true),
+                    1 => (Some(uid(0xA1)), true),
+                    2 => (Some(Uuid::nil()), false),
+                    _ => (Some(uid(0xDEAD)), false),
+                };
+                m.walls.push(wall(1, BoundaryType::INTERIOR, sp, nid, cn, 90.0, 0.0, rect(4.0, 3.0), None));
+                for ok in [ok_sp, ok_cn, ok_nx] {
+                    if !ok {
+                        want.push(uid(1));
+                    }
+                }
+                // wall 1
+                let (sp1, ok_sp1) = link(c, uid(0xA1));
+                m.walls.push(wall(2, BoundaryType::EXTERIOR, sp1, None, uid(0xC0), 90.0, 0.0, rect(4.0, 3.0), None));
+                if !ok_sp1 {
+                    want.push(uid(2));
+                }
+                // windows
+                let (ww, ok_ww) = link(c, uid(1));
+                let (wc, ok_wc) = link(c, uid(0xD0));
+                m.windows.push(window(0x11, ww, wc, 1.0, 1.0, None, 0.0));
+                for ok in [ok_ww, ok_wc] {
+                    if !ok {
+                        want.push(uid(0x11));
+                    }
+                }
+                let (ww1, ok_ww1) = link(c, uid(2));
+                m.windows.push(window(0x12, ww1, uid(0xD0), 1.0, 1.0, None, 0.0));
+                if !ok_ww1 {
+                    want.push(uid(0x12));
+                }
+                // bridges
+                let mut ls = vec![];
+                for i in 0..2u128 {
+                    let l = c.of(&[-1.0f32, -0.0, 0.0, 1.0]);
+                    m.thermal_bridges.push(bridge(0x21 + i, ThermalBridgeKind::CORNER, l, 0.1));
+                    if l < 0.0 {
+                        want.push(uid(0x21 + i));
+                    }
+                    ls.push(l);
+                }
+                c.note(format!("wall0: space ok={} cons ok={} next#{} | wall1 space ok={} | win0 wall ok={} cons ok={} | win1 wall ok={} | l={:?}", ok_sp, ok_cn, nx, ok_sp1, ok_ww, ok_wc, ok_ww1, ls));
+                let before = m.as_json().unwrap();
+                let ws = check(&m);
+                let after = m.as_json().unwrap();
+                let mut got: Vec<Uuid> = ws.iter().filter_map(|w| w.id).collect();
+                got.sort();
+                want.sort();
+                c.check("C15.exact", got == want, || format!("warning ids {:?} want {:?}", got, want));
+                c.check("C15.all_carry_id", ws.iter().all(|w| w.id.is_some()), || "a warning without element id".to_string());
+                c.check("C15.model_unchanged", before == after, || "check() modified the model".to_string());
+                if want.is_empty() {
+                    c.check("C15.closed_silent", ws.is_empty(), || format!("{} warnings for a closed model", ws.len()));
+                }
+                // the warnings returned with the indicators are the checker's (sampled: only when both bridges are regular)
+                if ls == [1.0, 1.0] || ls == [-1.0, 0.0] {
+                    let ind = m.energy_indicators();
+                    let a: Vec<_> = ind.warnings.iter().map(|w| (w.id, w.msg.clone(), w.level)).collect();
+                    let b: Vec<_> = ws.iter().map(|w| (w.id, w.msg.clone(), w.level)).collect();
+                    c.check("C15.indicators_warnings", a == b, || format!("indicator warnings {:?} vs checker {:?}", a.len(), b.len()));
+                }
+                if !want.is_empty() {
+                    c.nontrivial(format!("{:?}", want));
+                }
+                c.sample(|| format!("links wall0=({},{},{}) .. -> {} warnings", ok_sp, ok_cn, nx, ws.len()));
+            },
+        );
+    }
+}
